@@ -19,6 +19,10 @@ Property theorems only (helpers in `Lemmas/NewmarkNonlin.lean`; the model of `de
   the VALUES the arrays held when `def_nonlin` was last called (`specCalls`); in particular
   `def_nonlin_copies_at_call`: overwriting a transform array after `def_nonlin` changes nothing until `def_nonlin` is
   called again, and then the new values are used (no cache keyed by the array object).
+* `nonlin_rf_nonrf_part_is_run`, `nonlin_rf_placement_irrelevant` — with an rf partition (ANY placement of the rf rows) the
+  non-rf part of `tsolve` is `run` on the non-rf partition with the callbacks handed the non-rf rows at every step, so the
+  theorems above hold uniformly and permuting where the rf equations sit does not change the non-rf solution (finding
+  F63, repaired in /repo 62d98b6: the start-up used to hand the callbacks the full-size array).
 -/
 namespace PyYetiVerif.C17
 open PyYetiVerif.Newmark
@@ -84,7 +88,60 @@ theorem def_nonlin_copies_at_call (S : Sys V α) (zero : V) (store : Nat → Lis
 
 end calls
 
+
+/-! ## nonlinear terms together with an rf partition (after fix 62d98b6, finding F63) -/
+section rf
+variable {α : Type} [Add α] [Sub α] [Mul α] [Div α] [OfNat α 0] [OfNat α 1] [OfNat α 2] [OfNat α 3]
+
+/-- For ANY placement of the rf equations the non-rf part of `tsolve` is `Newmark.run` on the non-rf partition of
+`m, b, k, force, d0, v0`, with the nonlinear term `nl` handed the non-rf rows at every step, step 0 included: so
+`newmark_nonlin_is_documented` (stated for `run`) describes it uniformly - no special first step. -/
+theorem nonlin_rf_nonrf_part_is_run (n : Nat) (rf : List Nat) (M : Option (Mat α)) (B K : Mat α) (h : α)
+    (solveWith : Mat α → Vec α → Vec α) (nl : Sys (Vec α) α → Nat → List (Vec α) → Vec α)
+    (F : List (Vec α)) (d0 v0 : Vec α) :
+    tsolveNonrf n rf M B K h solveWith nl F d0 v0
+      = run (matSysOpt (M.map (pickMat (nonrfOf n rf))) (pickMat (nonrfOf n rf) B) (pickMat (nonrfOf n rf) K) h
+            solveWith)
+          (nl (matSysOpt (M.map (pickMat (nonrfOf n rf))) (pickMat (nonrfOf n rf) B) (pickMat (nonrfOf n rf) K) h
+            solveWith))
+          (F.map (pick (nonrfOf n rf))) (pick (nonrfOf n rf) d0) (pick (nonrfOf n rf) v0) ∧
+    (nonrfOf n rf ≠ [] → ∀ hh, tsolveNonrf n rf M B K h solveWith nl F d0 v0 = some hh →
+      ∃ drf, tsolveRf n rf M B K h solveWith nl F d0 v0
+        = some (List.zipWith (scatter n (nonrfOf n rf) rf) hh.d drf,
+            hh.v.map (fun x => scatter n (nonrfOf n rf) rf x ⟨Array.replicate rf.length 0⟩),
+            hh.a.map (fun x => scatter n (nonrfOf n rf) rf x ⟨Array.replicate rf.length 0⟩))) := by
+  refine ⟨rfl, fun hne hh hrun => ⟨rfStaticMat (pickMat rf K) solveWith (F.map (pick rf)), ?_⟩⟩
+  have hemp : (nonrfOf n rf).isEmpty = false := by
+    cases hl : nonrfOf n rf with
+    | nil => exact absurd hl hne
+    | cons _ _ => rfl
+  simp only [tsolveRf, hemp, hrun]
+  rfl
+
+/-- **Where the rf equations sit is irrelevant**: two systems (possibly of different size and with the rf rows at
+different places - in particular a row permutation of one another) whose non-rf partitions of `m, b, k`, force and
+initial conditions coincide have the same non-rf solution, nonlinear terms included.  (Before fix 62d98b6 the
+callbacks saw the full-size array at step 0 and this was false: finding F63.) -/
+theorem nonlin_rf_placement_irrelevant (n n' : Nat) (rf rf' : List Nat) (M M' : Option (Mat α)) (B B' K K' : Mat α)
+    (h : α) (solveWith : Mat α → Vec α → Vec α) (nl : Sys (Vec α) α → Nat → List (Vec α) → Vec α)
+    (F F' : List (Vec α)) (d0 d0' v0 v0' : Vec α)
+    (hM : M.map (pickMat (nonrfOf n rf)) = M'.map (pickMat (nonrfOf n' rf')))
+    (hB : pickMat (nonrfOf n rf) B = pickMat (nonrfOf n' rf') B')
+    (hK : pickMat (nonrfOf n rf) K = pickMat (nonrfOf n' rf') K')
+    (hF : F.map (pick (nonrfOf n rf)) = F'.map (pick (nonrfOf n' rf')))
+    (hd : pick (nonrfOf n rf) d0 = pick (nonrfOf n' rf') d0')
+    (hv : pick (nonrfOf n rf) v0 = pick (nonrfOf n' rf') v0') :
+    tsolveNonrf n rf M B K h solveWith nl F d0 v0 = tsolveNonrf n' rf' M' B' K' h solveWith nl F' d0' v0' := by
+  simp only [tsolveNonrf, hM, hB, hK, hF, hd, hv]
+
+end rf
+
 /-! ## non-vacuity -/
+
+/-- `nonlin_rf_placement_irrelevant`: the hypotheses hold for a row permutation that moves the rf row from the front to
+the back: rows `[1, 2]` of `(a, b, c)` are rows `[0, 1]` of `(b, c, a)` -/
+example : nonrfOf 3 [0] = [1, 2] ∧ nonrfOf 3 [2] = [0, 1] ∧
+    (pick [1, 2] (⟨#[10, 20, 30]⟩ : Vec Nat)).a = (pick [0, 1] (⟨#[20, 30, 10]⟩ : Vec Nat)).a := by decide
 
 /-- a one-term dictionary over `ℚ` whose pre-multiplied form differs from the raw one: `A = 2` (`solve x = x/2`),
 `T = [1]`, `z = [3]`: `T' @ z = 3/2`, `A (T' @ z) = 3 = T @ z` -/
